@@ -619,18 +619,23 @@ def diff_path(t, a, b):
 
 
 def class_of_path(path):
-    """stable class of a mismatch: the container kinds (list/fixed/map) above the differing leaf, products and sums
-    being transparent, then the leaf: `heap` for string/list/map contents and lengths, else the scalar kind"""
+    """stable class of a mismatch.  Products and sums are transparent.  If the differing place lies inside a heap buffer
+    (string bytes, list/map elements or length) the class is the fixed-length-list nesting above the OUTERMOST heap buffer
+    followed by `heap` (e.g. `heap`, `fixed/heap`); otherwise the fixed nesting followed by the scalar kind that differs
+    (`u8`, `fixed/f32`, `discriminant`)."""
     if not path:
         return "?"
-    conts = [k for k in path[:-1] if k in ("list", "fixed", "map")]
+    conts = []
+    for k in path[:-1]:
+        if k in ("list", "map"):
+            return "/".join(conts + ["heap"])
+        if k == "fixed":
+            conts.append(k)
     leaf = path[-1]
-    if leaf == "#len":
-        conts = conts[:-1]
-        leaf = "heap"
-    elif leaf in ("string", "list", "map"):
-        leaf = "heap"
-    elif leaf == "#case":
+    if leaf in ("#len", "string", "list", "map"):
+        # the length of a fixed-length list cannot differ; #len belongs to the list/map/string just above
+        return "/".join(conts + ["heap"])
+    if leaf == "#case":
         leaf = "discriminant"
     return "/".join(conts + [leaf])
 
@@ -923,6 +928,37 @@ class Oracle:
             raise RuntimeError("oracle died: " + self.proc.last_err)
         return r
 
+    def ask_many(self, reqs):
+        """pipelined: write all request lines, then read all answers (one wake-up of the oracle instead of len(reqs))"""
+        if not reqs:
+            return []
+        p = self.proc
+        if p.p is None or p.p.poll() is not None:
+            p.start()
+        self.calls += len(reqs)
+        data = "".join("SPEC\x1d" + "\x1d".join(str(f) for f in r) + "\n" for r in reqs).encode()
+        if len(data) > 48000:      # stay clear of pipe-buffer deadlocks: fall back to one at a time
+            return [self.ask(*r) for r in reqs]
+        p.p.stdin.write(data)
+        p.p.stdin.flush()
+        out = []
+        for _ in reqs:
+            l = p.p.stdout.readline()
+            if not l:
+                raise RuntimeError("oracle died")
+            out.append(l.decode(errors="replace").rstrip("\n"))
+        return out
+
+    @staticmethod
+    def r_allocs(r):
+        if r == "ILL-TYPED":
+            raise RuntimeError("oracle: ill-typed value")
+        return [tuple(int(x) for x in a.split(":")) for a in r.split()]
+
+    @staticmethod
+    def r_lift(r):
+        return None if r == "TRAP" else parse_value(r)
+
     def layout(self, t):
         s = sx(t)
         if s not in self.lcache:
@@ -1160,6 +1196,25 @@ def make_module(dump, opt, modname, gen_src, oracle, resources=False):
 
 
 # ------------------------------------------------------------------------------------------ guest crates
+_TREE_HASH = {}
+
+
+def tree_hash(d):
+    """content hash of a source tree (path dependencies of the guest crates: part of the workspace cache key, so a complete
+    workspace never needs cargo again)"""
+    if d not in _TREE_HASH:
+        h = hashlib.sha256()
+        for root, dirs, files in os.walk(d):
+            dirs[:] = sorted(x for x in dirs if x not in ("target", ".git"))
+            for f in sorted(files):
+                if f.endswith((".rs", ".toml")):
+                    p = os.path.join(root, f)
+                    h.update(os.path.relpath(p, d).encode())
+                    h.update(open(p, "rb").read())
+        _TREE_HASH[d] = h.hexdigest()
+    return _TREE_HASH[d]
+
+
 class Workspace:
     """A cargo workspace of guest crates under build/genrun/<tag>/ws-<hash>; every crate is a native binary
     holding several (world, option set) modules."""
@@ -1182,6 +1237,9 @@ class Workspace:
         rt_src = open(os.path.join(TEMPL, "rt.rs")).read()
         h = hashlib.sha256()
         h.update(rt_src.encode())
+        h.update(tree_hash(os.path.join(os.path.realpath(vf.REPO), "crates", "guest-rust")).encode())
+        if rtmock:
+            h.update(tree_hash(os.path.join(vf.harness_dir(), "crates", "rtmock")).encode())
         h.update(("%s|%s|%s|%s" % (hook, rtmock, profile, ",".join(self.extra_features))).encode())
         for m in names:
             h.update(m.encode())
@@ -1224,16 +1282,24 @@ class Workspace:
                 _write_if_different(os.path.join(self.dir, c, "src", m + ".rs"), self.modules[m])
 
     def build(self, max_rounds=4, timeout=3000):
-        """cargo build; modules rustc rejects are excluded (recorded with the first error) and the rest rebuilt.
-        Returns (ok, log)."""
-        tdir = os.path.join(vf.BUILD, "genrun", "target" + ("-hook" if self.hook else ""))
+        """cargo build (own target dir inside the workspace); modules rustc rejects are excluded (recorded with the first
+        error) and the rest rebuilt.  A workspace that was built completely before is not touched again: its key covers the
+        generated sources, rt.rs and the path dependencies' sources.  Returns (ok, log)."""
+        tdir = os.path.join(self.dir, "target")
+        stamp = os.path.join(self.dir, ".built.json")
+        if os.path.exists(stamp):
+            st = json.load(open(stamp))
+            if all(os.path.exists(os.path.join(self.dir, c + ".exe")) for c in st["exes"]):
+                self.excluded = st["excluded"]
+                self.exes = {c: os.path.join(self.dir, c + ".exe") for c in st["exes"]}
+                os.utime(self.dir)
+                return True, "cached"
         env = {"RUSTFLAGS": "-Awarnings" + ((" --cfg " + vf.HOOK_CFG) if self.hook else "")}
         log = ""
-        stamp = os.path.join(self.dir, ".built")
         for rnd in range(max_rounds):
             self.write()
             args = ["build", "--keep-going", "--message-format=short"] + (["--release"] if self.profile == "release" else [])
-            rc, out = _cargo(self.dir, args, tdir, env=env, timeout=timeout, lock="genrun-build")
+            rc, out = _cargo(self.dir, args, tdir, env=env, timeout=timeout, lock="genrun-build-" + self.hash)
             log = out
             pdir = "release" if self.profile == "release" else "debug"
             if rc == 0:
@@ -1241,10 +1307,11 @@ class Workspace:
                     if any(m not in self.excluded for m in self.crates[c]):
                         src = os.path.join(tdir, pdir, "genrun_" + c)
                         dst = os.path.join(self.dir, c + ".exe")
-                        if not os.path.exists(dst) or os.path.getmtime(dst) < os.path.getmtime(src):
-                            shutil.copy(src, dst + ".tmp")
-                            os.replace(dst + ".tmp", dst)
+                        shutil.copy(src, dst + ".tmp")
+                        os.replace(dst + ".tmp", dst)
                         self.exes[c] = dst
+                json.dump({"exes": sorted(self.exes), "excluded": self.excluded}, open(stamp, "w"))
+                shutil.rmtree(tdir, ignore_errors=True)     # the executables are all we keep
                 return True, log
             bad = {}
             for m in re.finditer(r"(?:^|[\s/])(g\d+)/src/(\w+)\.rs:(\d+):\d+: error(.*)", out):
@@ -1444,9 +1511,17 @@ class Runner:
         self.o, self.g = oracle, guest
         self.stats = {"export_calls": 0, "import_calls": 0, "leaves_sent": 0, "leaves_received": 0, "host_buffers": 0, "guest_buffers": 0,
                       "uaf_probes": 0}
+        self.live = None
 
     def _live(self):
-        return self.g.live()[0]
+        """live tracked blocks; known from the last response when possible (saves a round trip)"""
+        if self.live is None:
+            self.live = self.g.live()[0]
+        return self.live
+
+    @staticmethod
+    def _parse_live(r):
+        return [tuple(int(x) for x in b.split(":")) for b in r.get("live", "").split(",") if b]
 
     def _mem_findings(self, events, where):
         out = []
@@ -1487,11 +1562,13 @@ class Runner:
         self.stats["export_calls"] += 1
         self.stats["host_buffers"] += len(given)
         self.stats["leaves_sent"] += sum(count_leaves(a) for a in args)
+        self.live = None
         resp = g.ask("EXPORT %s %d %d %s %s %s" % (mod, fm.idx, retsize, ",".join(map(str, flat)), ",".join(map(str, script)), segs_str(writes)))
         if resp is None or not resp.startswith("OK"):
             F.append(Finding("crash", "guest-died", "export call: %s" % (g.proc.last_err if resp is None else resp), "crash:export"))
             return F, obs
         r = Guest.fields(resp)
+        live1 = self._parse_live(r)
         obs["ret"] = int(r["ret"])
         evs = parse_events(r.get("ev", ""))
         obs["events"] = evs
@@ -1511,12 +1588,17 @@ class Runner:
         if fm.result:
             self.stats["leaves_received"] += count_leaves(ret)
             mode, src = ("mem", obs["ret"]) if fm.result_indirect else ("flat", str(obs["ret"]))
-            got = o.lift(fm.result, mode, src, r.get("segs", ""))
+            ps = poison_segments(evs, M_CALL_START, M_CALL_END) if fm.result_indirect else []
+            reqs = [("lift", PW, sx(fm.result), mode, src, r.get("segs", "")), ("allocs", PW, sx(fm.result), show(ret), "mem" if fm.result_indirect else "flat")]
+            if ps:
+                reqs.append(("lift", PW, sx(fm.result), mode, src, ";".join(ps + [r.get("segs", "")])))   # later segments win: live memory over poison
+            ans = o.ask_many(reqs)
+            got = Oracle.r_lift(ans[0])
+            want_allocs = Oracle.r_allocs(ans[1])
             self._compare(F, "export-result", fm.result, ret, got, "Rust returned %s, the host received %s")
-            ps = poison_segments(evs, M_CALL_START, M_CALL_END)
-            if ps and fm.result_indirect:
+            if ps:
                 self.stats["uaf_probes"] += 1
-                got2 = o.lift(fm.result, mode, src, ";".join(ps + [r.get("segs", "")]))   # later segments win: live memory over poison
+                got2 = Oracle.r_lift(ans[2])
                 if got2 != got:
                     d = diff_path(fm.result, canon(fm.result, got), canon(fm.result, got2)) if (got is not None and got2 is not None) else None
                     F.append(Finding("memory", "use-after-free", "the result image points into memory the guest freed before returning (lifting reads freed blocks): %s" % show(ret),
@@ -1537,7 +1619,7 @@ class Runner:
                                  "host-buffer-not-taken:export-param:" + label_blocks([(s, al)], plabels)))
         handed = sorted(allocd.values())
         self.stats["guest_buffers"] += len(handed)
-        want = sorted(o.allocs(fm.result, ret, "mem" if fm.result_indirect else "flat")) if fm.result else []
+        want = sorted(want_allocs) if fm.result else []
         rlabels = alloc_labels(o, fm.result, ret, not fm.result_indirect) if fm.result else []
         if sorted(sa for sa, _ in rlabels) != want:
             raise RuntimeError("engine: alloc_labels disagrees with the oracle: %s vs %s for %s" % (rlabels, want, show(ret)))
@@ -1555,7 +1637,8 @@ class Runner:
             evs2 = parse_events(r2.get("ev", ""))
             F += self._mem_findings(evs2, "post-return")
             obs["post_events"] = evs2
-        live1 = self._live()
+            live1 = self._parse_live(r2)
+        self.live = live1
         if live1 != live0:
             leaked = sorted(set(live1) - set(live0))
             gone = sorted(set(live0) - set(live1))
@@ -1593,6 +1676,7 @@ class Runner:
         self.stats["import_calls"] += 1
         self.stats["host_buffers"] += len(given)
         self.stats["leaves_sent"] += count_leaves(ret) if ret else 0
+        self.live = None
         resp = g.ask("IMPORT %s %d %s %s %d %s %s %s %s" % (mod, fm.idx, fm.wasm_module.replace(" ", "\x1f"), fm.name.replace(" ", "\x1f"), ind, mode, payload,
                                                           ",".join(map(str, script)), segs_str(writes)))
         if resp is None or not resp.startswith("OK"):
@@ -1616,12 +1700,16 @@ class Runner:
             elif fm.params:
                 self.stats["leaves_received"] += sum(count_leaves(a) for a in args)
                 lm, src = ("mem", words[0]) if fm.params_indirect else ("flat", " ".join(str(w) for w in words[:len(fm.param_flat)]))
-                got = o.lift(pt, lm, src, r.get("segs", ""))
-                self._compare(F, "import-param", pt, pv, got, "Rust passed %s, the host received %s")
                 ps = poison_segments(evs, M_CALL_START, M_HOST_ENTER)
+                reqs = [("lift", PW, sx(pt), lm, src, r.get("segs", ""))]
+                if ps:
+                    reqs.append(("lift", PW, sx(pt), lm, src, ";".join(ps + [r.get("segs", "")])))
+                ans = o.ask_many(reqs)
+                got = Oracle.r_lift(ans[0])
+                self._compare(F, "import-param", pt, pv, got, "Rust passed %s, the host received %s")
                 if ps:
                     self.stats["uaf_probes"] += 1
-                    got2 = o.lift(pt, lm, src, ";".join(ps + [r.get("segs", "")]))
+                    got2 = Oracle.r_lift(ans[1])
                     if got2 != got:
                         d = diff_path(pt, canon(pt, got), canon(pt, got2)) if (got is not None and got2 is not None) else None
                         F.append(Finding("memory", "use-after-free", "the lowered parameters point into memory the wrapper freed before calling the import "
@@ -1640,7 +1728,8 @@ class Runner:
             if a not in freed:
                 F.append(Finding("memory", "host-buffer-not-taken", "result buffer %d:%d handed to the import wrapper was not released once the result was dropped" % (s, al),
                                  "host-buffer-not-taken:import-result:" + label_blocks([(s, al)], rlabels)))
-        live1 = self._live()
+        live1 = self._parse_live(r)
+        self.live = live1
         if live1 != live0:
             leaked = sorted(set(live1) - set(live0))
             gone = sorted(set(live0) - set(live1))
@@ -1654,12 +1743,460 @@ class Runner:
     def cleanup(self, baseline):
         """free whatever is still live beyond `baseline` (after a failed case) so later cases start clean"""
         try:
+            self.live = None
             live = self._live()
             extra = [b for b in live if b not in set(baseline)]
             self.g.free(extra)
+            self.live = None
         except GuestDied:
-            pass
+            self.live = None
 
 
 M_CALL_START, M_HOST_ENTER, M_HOST_EXIT, M_CALL_END, M_WALK_END, M_DROP_END = 1, 2, 3, 4, 5, 6
 M_IMPL_ENTER, M_IMPL_WALKED, M_IMPL_BUILT, M_POST_START, M_POST_END, M_BUILD_START = 7, 8, 9, 10, 11, 12
+
+
+# ------------------------------------------------------------------------------------------ WIT from type trees (minimised cases)
+class WitEmitter:
+    """re-declares structural type trees with fresh names; used to write single-function worlds"""
+    def __init__(self):
+        self.decls = []
+        self.n = 0
+        self.memo = {}
+
+    def ty(self, t):
+        k = t["k"]
+        if k in INTS or k in ("bool", "f32", "f64", "char", "string"):
+            return k
+        if k == "errctx":
+            return "error-context"
+        if k == "list":
+            return "list<%s>" % self.ty(t["t"])
+        if k == "fixed":
+            return "list<%s, %d>" % (self.ty(t["t"]), t["n"])
+        if k == "map":
+            return "map<%s, %s>" % (self.ty(t["key"]), self.ty(t["val"]))
+        if k == "option":
+            return "option<%s>" % self.ty(t["t"])
+        if k == "result":
+            a, b = t["ok"], t["err"]
+            if not a and not b:
+                return "result"
+            if not b:
+                return "result<%s>" % self.ty(a)
+            return "result<%s, %s>" % (self.ty(a) if a else "_", self.ty(b))
+        if k == "tuple":
+            return "tuple<%s>" % ", ".join(self.ty(x) for x in t["ts"])
+        key = sx(t) + "|" + json.dumps([t.get("wit")] + [f.get("wit") for f in t.get("fields", [])] + [c.get("wit") if isinstance(c, dict) else c for c in t.get("cases", [])])
+        if key in self.memo:
+            return self.memo[key]
+        self.n += 1
+        if k == "record":
+            body = ", ".join("f%d: %s" % (i, self.ty(f["t"])) for i, f in enumerate(t["fields"]))
+            name = "r%d" % self.n
+            self.decls.append("  record %s { %s }\n" % (name, body))
+        elif k == "variant":
+            body = ", ".join("c%d%s" % (i, "(%s)" % self.ty(c["t"]) if c["t"] else "") for i, c in enumerate(t["cases"]))
+            name = "v%d" % self.n
+            self.decls.append("  variant %s { %s }\n" % (name, body))
+        elif k == "enum":
+            name = "e%d" % self.n
+            self.decls.append("  enum %s { %s }\n" % (name, ", ".join("k%d" % i for i in range(len(t["cases"])))))
+        elif k == "flags":
+            name = "fl%d" % self.n
+            self.decls.append("  flags %s { %s }\n" % (name, ", ".join("b%d" % i for i in range(len(t["flags"])))))
+        else:
+            raise Unsupported("wit: " + k)
+        self.memo[key] = name
+        return name
+
+
+def single_function_world(direction, params, result, pkg="m0:p", in_interface=True):
+    """WIT text of a world with one function `f` (imported or exported), types re-declared structurally"""
+    e = WitEmitter()
+    ps = ", ".join("p%d: %s" % (i, e.ty(t)) for i, t in enumerate(params))
+    sig = "func(%s)%s" % (ps, " -> %s" % e.ty(result) if result else "")
+    if in_interface:
+        return "package %s;\ninterface i {\n%s  f: %s;\n}\nworld w {\n  %s i;\n}\n" % (pkg, "".join(e.decls), sig, direction), "w"
+    return "package %s;\nworld w {\n%s  %s f: %s;\n}\n" % (pkg, "".join(e.decls), direction, sig), "w"
+
+
+def subtypes(t):
+    """immediate component types (for shrinking)"""
+    k = t["k"]
+    out = []
+    for key in ("t", "key", "val", "ok", "err"):
+        if isinstance(t.get(key), dict):
+            out.append(t[key])
+    out += t.get("ts", [])
+    out += [f["t"] for f in t.get("fields", [])]
+    if k == "variant":
+        out += [c["t"] for c in t["cases"] if c["t"]]
+    return out
+
+
+def type_size(t):
+    n = [0]
+    walk_types(t, lambda x: n.__setitem__(0, n[0] + 1 + len(x.get("cases", [])) // 8 + len(x.get("flags", [])) // 16 + (x.get("n", 0) if x["k"] == "fixed" else 0)))
+    return n[0]
+
+
+# ------------------------------------------------------------------------------------------ campaign
+class Unit:
+    """one (world, option set) = one Rust module of a guest crate"""
+    def __init__(self, modname, wit, world, opt, origin):
+        self.modname, self.wit, self.world, self.opt, self.origin = modname, wit, world, opt, origin
+        self.dump = self.src = self.funcs = None
+        self.notes = []
+        self.skip = None      # reason this unit could not be prepared / built
+
+
+class Case:
+    def __init__(self, unit, fm, args, ret, findings, obs=None):
+        self.unit, self.fm, self.args, self.ret, self.findings, self.obs = unit, fm, args, ret, findings, obs
+
+    def replay_obj(self):
+        return {"engine": "genrun-rust", "wit": self.unit.wit, "world": self.unit.world, "options": self.unit.opt.as_dict(),
+                "function": self.fm.key(), "args": [show(a) for a in self.args], "ret": show(self.ret) if self.ret is not None else None}
+
+
+class Tools:
+    def __init__(self):
+        self.ok, self.log = True, ""
+        import genlib
+        ok, exe, log = build_witdump()
+        self.witdump = install_tool(exe, "witdump") if ok else None
+        if not ok:
+            self.ok, self.log = False, "witdump: " + log[-2000:]
+        ok, exe, log = build_oracle()
+        self.oracle_exe = exe
+        if not ok:
+            self.ok, self.log = False, "oracle: " + log[-2000:]
+        ok, exe, log = genlib.build()
+        self.genlib = install_tool(exe, "genlib") if ok else None
+        if not ok:
+            self.ok, self.log = False, "genlib: " + log[-2000:]
+        ok, exe, log = vf.cargo_build("corelib")
+        self.corelib = exe
+        if not ok:
+            self.ok, self.log = False, "corelib: " + log[-2000:]
+
+
+def prepare_units(tools, specs, resources=False, max_src=None):
+    """specs: [(modname, wit, world, OptSet, origin)] -> [Unit] (those that cannot be driven carry .skip)"""
+    import genlib
+    units = [Unit(*s) for s in specs]
+    if not units:
+        return units
+    uniq = {}
+    for u in units:
+        uniq.setdefault((u.world, u.wit), None)
+    keys = list(uniq)
+    dumps = dump_worlds(tools.witdump, keys)
+    for k, d in zip(keys, dumps):
+        uniq[k] = d
+    gens = genlib.generate_many([("rust", u.opt.words(u.modname + "_"), u.world, u.wit) for u in units], exe=tools.genlib)
+    o = Oracle(tools.oracle_exe)
+    try:
+        for u, gr in zip(units, gens):
+            d = uniq[(u.world, u.wit)]
+            if isinstance(d, tuple):
+                u.skip = "witdump: " + d[1][:200]
+                continue
+            u.dump = d
+            if gr[0] != "ok":
+                u.skip = "generator %s: %s" % (gr[0], gr[1][:200])
+                continue
+            gsrc = [v for k, v in gr[1].items() if k.endswith(".rs")][0]
+            if max_src and len(gsrc) > max_src:
+                u.skip = "too-large (%d bytes of bindings)" % len(gsrc)
+                continue
+            try:
+                u.src, u.funcs, u.notes = make_module(d, u.opt, u.modname, gsrc, o, resources)
+            except Unsupported as e:
+                u.skip = "unsupported: %s" % e
+    finally:
+        o.close()
+    return units
+
+
+def build_units(units, ncrates=None, **kw):
+    """-> (Workspace, ok, log); units rustc rejects get .skip = 'rustc: …'"""
+    live = [u for u in units if not u.skip]
+    ws = Workspace({u.modname: u.src for u in live}, ncrates=ncrates, **kw)
+    ok, log = ws.build()
+    for u in live:
+        if u.modname in ws.excluded:
+            u.skip = "rustc: " + ws.excluded[u.modname]
+    return ws, ok, log
+
+
+def calls_plan(unit, total):
+    fs = unit.funcs
+    if not fs:
+        return {}
+    per = max(2, min(12, total // len(fs)))
+    return {fm.idx: per for fm in fs}
+
+
+def run_units(tools, ws, units, total_calls, seed, wrap=None, env=None, max_fail_per_class=2, workers=None):
+    """Runs every live unit; -> (cases with findings, stats dict).  One guest process + one oracle process per crate,
+    crates in parallel."""
+    import concurrent.futures
+    by_crate = {}
+    for u in units:
+        if u.skip:
+            continue
+        by_crate.setdefault(ws.crate_of(u.modname), []).append(u)
+
+    def one(crate):
+        o = Oracle(tools.oracle_exe)
+        g = Guest(ws.exes[crate], wrap=wrap, env=env)
+        failing, stats = [], {"units": 0, "functions": 0, "calls": 0, "distinct_sigs": set(), "kinds": {}, "nontrivial": 0, "samples": []}
+        try:
+            for u in by_crate[crate]:
+                R = Runner(o, g)
+                rng = vf.Rng(int(hashlib.sha256(("%d|%s" % (seed, u.modname)).encode()).hexdigest()[:15], 16))
+                plan = calls_plan(u, total_calls)
+                stats["units"] += 1
+                seen_class = {}
+                for fm in u.funcs:
+                    stats["functions"] += 1
+                    sig = "%s|%s|%s->%s" % (fm.dir, u.opt.tag(), " ".join(sx(p) for p in fm.params), sx(fm.result) if fm.result else "_")
+                    stats["distinct_sigs"].add(sig)
+                    for t in fm.params + ([fm.result] if fm.result else []):
+                        for k in kinds_of(t):
+                            stats["kinds"][k] = stats["kinds"].get(k, 0) + 1
+                    for c in range(plan.get(fm.idx, 0)):
+                        args = [gen_value(rng, t) for t in fm.params]
+                        ret = gen_value(rng, fm.result) if fm.result else None
+                        try:
+                            F, obs = (R.export_call if fm.dir == "export" else R.import_call)(u.modname, fm, args, ret)
+                        except GuestDied as e:
+                            F, obs = [Finding("crash", "guest-died", str(e), "crash:" + fm.dir)], {}
+                        stats["calls"] += 1
+                        if fm.params or fm.result:
+                            stats["nontrivial"] += 1
+                        if len(stats["samples"]) < 2 and (fm.params or fm.result) and not F:
+                            stats["samples"].append({"module": u.modname, "options": u.opt.tag(), "function": fm.key(), "args": [show(a)[:200] for a in args],
+                                                     "ret": show(ret)[:200] if ret else None})
+                        if F:
+                            ks = tuple(sorted(set(f.klass for f in F)))
+                            seen_class[ks] = seen_class.get(ks, 0) + 1
+                            if seen_class[ks] <= max_fail_per_class:
+                                failing.append(Case(u, fm, args, ret, F, obs))
+                            R.cleanup([])
+                            if any(f.cat == "crash" for f in F):
+                                break
+                for k, v in R.stats.items():
+                    stats[k] = stats.get(k, 0) + v
+        finally:
+            stats["guest_deaths"] = g.deaths
+            g.close()
+            o.close()
+        return failing, stats
+    failing, total = [], {}
+    with concurrent.futures.ThreadPoolExecutor(max_workers=workers or vf.NCPU) as ex:
+        for f, st in ex.map(one, sorted(by_crate)):
+            failing += f
+            for k, v in st.items():
+                if isinstance(v, set):
+                    total.setdefault(k, set()).update(v)
+                elif isinstance(v, dict):
+                    d = total.setdefault(k, {})
+                    for kk, vv in v.items():
+                        d[kk] = d.get(kk, 0) + vv
+                elif isinstance(v, list):
+                    total.setdefault(k, []).extend(v)
+                else:
+                    total[k] = total.get(k, 0) + v
+    return failing, total
+
+
+# ------------------------------------------------------------------------------------------ world plans
+def world_opts(rng, i, features, pkg):
+    import witgen
+    return witgen.Opts(features=features, max_depth=rng.choice([2, 2, 3]), n_ifaces=(1, 2), n_types=(0, 4), n_funcs=(1, 3), max_params=4,
+                       big_sigs=rng.chance(1, 4), package=pkg)
+
+
+def gen_worlds(tools, seed, n, features, tag):
+    """n worlds the real wit-parser accepts, drawn from lib/witgen.py; package names <tag><i>:p keep export symbols apart"""
+    import witgen
+    rng = vf.Rng(seed)
+    out = []
+    tries = 0
+    while len(out) < n and tries < 6:
+        tries += 1
+        batch = []
+        for _ in range(n - len(out) + 4):
+            i = len(out) + len(batch) + 100 * tries
+            batch.append(witgen.gen_world(rng.fork(i), world_opts(rng, i, features, "%s%d:p" % (tag, i))))
+        res = vf.run_filter([tools.corelib, "parse"], [witgen.encode_line(w.text) for w in batch])
+        for w, r in zip(batch, res):
+            if r.startswith("ok") and len(out) < n:
+                out.append(w)
+    return out
+
+
+def pick_worlds(tools, seed, n, features, tag, max_src):
+    """n worlds whose default-option bindings generate, stay below max_src bytes and hold at least one function"""
+    import genlib
+    cands = gen_worlds(tools, seed, n + n // 2 + 3, features, tag)
+    gens = genlib.generate_many([("rust", "--generate-all", w.world, w.text) for w in cands], exe=tools.genlib)
+    out = []
+    for w, g_ in zip(cands, gens):
+        if g_[0] != "ok" or not w.meta["funcs"]:
+            continue
+        src = [v for k, v in g_[1].items() if k.endswith(".rs")][0]
+        if len(src) <= max_src and len(out) < n:
+            out.append(w)
+    return out
+
+
+def optset_schedule(rng, nworlds, per_world):
+    """per world a list of option sets; all 32 appear as early as possible (a seeded permutation, cyclic)"""
+    alls = all_optsets()
+    perm = list(range(len(alls)))
+    for i in range(len(perm) - 1, 0, -1):
+        j = rng.below(i + 1)
+        perm[i], perm[j] = perm[j], perm[i]
+    out = []
+    for w in range(nworlds):
+        out.append([alls[perm[(w * per_world + k) % len(perm)]] for k in range(per_world)])
+    return out
+
+
+# ------------------------------------------------------------------------------------------ minimisation / replay
+def run_single(tools, wit, world, opt, fkey, calls, seed, fixed_case=None, resources=False, modname="m0o0", **kw):
+    """Build one (world, option set) and call function `fkey` (`dir:iface#name`) `calls` times with random values, or once
+    with fixed_case = (args, ret).  -> (list of Case with findings, unit)"""
+    units = prepare_units(tools, [(modname, wit, world, opt, "single")], resources=resources)
+    u = units[0]
+    if u.skip:
+        return None, u
+    ws, ok, log = build_units(units, ncrates=1, **kw)
+    if not ok or u.skip:
+        u.skip = u.skip or ("build failed: " + log[-1500:])
+        return None, u
+    o = Oracle(tools.oracle_exe)
+    g = Guest(ws.exes[ws.crate_of(modname)])
+    out = []
+    try:
+        R = Runner(o, g)
+        rng = vf.Rng(seed)
+        for fm in u.funcs:
+            if fkey and fm.key() != fkey:
+                continue
+            todo = [fixed_case] if fixed_case else [None] * calls
+            for fc in todo:
+                args, ret = fc if fc else ([gen_value(rng, t) for t in fm.params], gen_value(rng, fm.result) if fm.result else None)
+                try:
+                    F, obs = (R.export_call if fm.dir == "export" else R.import_call)(modname, fm, args, ret)
+                except GuestDied as e:
+                    F, obs = [Finding("crash", "guest-died", str(e), "crash:" + fm.dir)], {}
+                if F:
+                    out.append(Case(u, fm, args, ret, F, obs))
+                    R.cleanup([])
+    finally:
+        g.close()
+        o.close()
+    return out, u
+
+
+def minimize(tools, case, klass, seed, rounds=3, calls=24, log=None):
+    """Shrink the failing case to a single-function world whose types are as small as we can make them while a finding of
+    class `klass` still shows.  Every round builds all candidates as modules of one workspace (in parallel)."""
+    fm, opt = case.fm, case.unit.opt
+    best = None   # (size, direction, params, result)
+    cur = (fm.dir, list(fm.params), fm.result)
+
+    def cands_of(c):
+        d, ps, r = c
+        out = []
+        # drop parameters / the result
+        for i in range(len(ps)):
+            out.append((d, [ps[i]], None))
+            out.append((d, ps[:i] + ps[i + 1:], r))
+        if r is not None:
+            out.append((d, [], r))
+        # replace one parameter / the result by any of its descendants, or simplify it in place
+        def variants(t):
+            vs = []
+            seen_ = set()
+
+            def rec(x):
+                for s_ in subtypes(x):
+                    if sx(s_) not in seen_:
+                        seen_.add(sx(s_))
+                        vs.append(s_)
+                        rec(s_)
+            rec(t)
+            if t["k"] == "fixed":
+                for e_ in [t["t"]] + vs:
+                    for n_ in sorted(set([1, 2, t["n"] // 2, 9, 17, t["n"]])):
+                        if n_ >= 1 and (n_ < t["n"] or sx(e_) != sx(t["t"])) and e_["k"] != "fixed":
+                            vs.append({"k": "fixed", "t": e_, "n": n_})
+            if t["k"] in ("list", "option"):
+                for e_ in vs[:]:
+                    vs.append({"k": t["k"], "t": e_})
+            if t["k"] == "tuple":
+                for e_ in t["ts"]:
+                    vs.append({"k": "tuple", "ts": [e_]})
+            return vs
+        for i, p in enumerate(ps):
+            for s_ in variants(p):
+                out.append((d, ps[:i] + [s_] + ps[i + 1:], r))
+        if r is not None:
+            for s_ in variants(r):
+                out.append((d, ps, s_))
+        uniq, seen = [], set()
+        for c_ in out:
+            k_ = (c_[0], tuple(sx(p) for p in c_[1]), sx(c_[2]) if c_[2] else None)
+            if k_ not in seen and (c_[1] or c_[2]):
+                seen.add(k_)
+                uniq.append(c_)
+        return uniq
+
+    def size(c):
+        return sum(type_size(p) for p in c[1]) + (type_size(c[2]) if c[2] else 0)
+
+    def try_batch(cs, rnd):
+        specs, metas = [], []
+        for i, c in enumerate(cs):
+            try:
+                wit, world = single_function_world(c[0], c[1], c[2], pkg="m%dx%d:p" % (rnd, i))
+            except Unsupported:
+                continue
+            specs.append(("m%dx%d" % (rnd, i), wit, world, opt, "shrink"))
+            metas.append(c)
+        units = prepare_units(tools, specs)
+        ws, ok, blog = build_units(units)
+        if not ok:
+            return []
+        failing, _ = run_units(tools, ws, units, calls, seed, max_fail_per_class=1)
+        res = []
+        for cs_ in failing:
+            if any(f.klass == klass for f in cs_.findings):
+                idx = [u.modname for u in units].index(cs_.unit.modname)
+                res.append((metas[idx], cs_))
+        return res
+    # round 0: the function alone
+    got = try_batch([cur], 0)
+    if not got:
+        return None
+    best = got[0]
+    for rnd in range(1, rounds + 1):
+        cs = [c_ for c_ in sorted(cands_of(best[0]), key=size) if size(c_) < size(best[0])][:32]
+        if not cs:
+            break
+        got = try_batch(cs, rnd)
+        if not got:
+            break
+        got.sort(key=lambda x: size(x[0]))
+        if size(got[0][0]) >= size(best[0]):
+            break
+        best = got[0]
+        if log:
+            log("minimize round %d: %s" % (rnd, best[1].replay_obj()["wit"].replace("\n", " ")))
+    return best[1]
